@@ -27,7 +27,9 @@ def unread_params(f):
     node = f.node
     loads = {n.id for n in ast.walk(node) if isinstance(n, ast.Name) and isinstance(n.ctx, (ast.Load, ast.Del))}
     a = node.args
-    return [x.arg for x in a.posonlyargs + a.args + a.kwonlyargs if x.arg not in loads and x.arg not in ("self", "cls")]
+    # (a leading underscore is the conventional spelling of 'deliberately unused')
+    return [x.arg for x in a.posonlyargs + a.args + a.kwonlyargs if x.arg not in loads and x.arg not in ("self", "cls")
+            and not x.arg.startswith("_")]
 
 
 def conforming(tree, f) -> bool:
